@@ -293,24 +293,24 @@ kproof!(cut, 8, fn c14_t_range_one_arg() {
 
 // ------------------------------------------------------------------------------ chunk / flatten
 kproof!(cut, 6, fn c14_t_flatten_chunk_roundtrip() {
-    let (a, b, c): (f64, f64, f64) = (kani::any(), kani::any(), kani::any());
-    let k = any_int(4);
+    let (a, b): (f64, f64) = (kani::any(), kani::any());
+    let k = any_int(3);
     kani::assume(k >= 1.0);
-    let l = arena::list_cell(vec![n(a), n(b), n(c)]);
+    let l = arena::list_cell(vec![n(a), n(b)]);
     let heap = arena::heap();
     let ch = ok(call_bi(BuiltInFunction::Chunk, av![l, n(k)], &heap));
-    // number of chunks = ceil(3 / k)
-    let want_chunks = if k == 1.0 { 3 } else if k == 2.0 { 2 } else { 1 };
+    // number of chunks = ceil(2 / k)
+    let want_chunks = if k == 1.0 { 2 } else { 1 };
     match read_list(ch, &heap) {
         Some((m, _)) => assert!(m == want_chunks),
         None => panic!("chunk: not a list"),
     }
     let fl = ok(call_bi(BuiltInFunction::Flatten, av![ch], &heap));
     match read_list(fl, &heap) {
-        Some((3, el)) => assert!(same_value(el[0], n(a)) && same_value(el[1], n(b)) && same_value(el[2], n(c))),
+        Some((2, el)) => assert!(same_value(el[0], n(a)) && same_value(el[1], n(b))),
         _ => panic!("flatten(chunk(l, n)) != l"),
     }
-    kani::cover!(k == 2.0, "reach uneven chunking");
+    kani::cover!(k == 3.0, "reach a chunk size above the length");
     std::mem::forget(heap);
 });
 kproof!(cut, 6, fn c14_t_chunk_zero_and_zip() {
